@@ -189,6 +189,14 @@ def run_case(case):
                             pv = want[-2] if L >= 2 else None
                             if not same(ind.prev_reading(), pv):
                                 V("default-position", f"C20|Indicator.prev_reading()|{cls}", f"prev_reading() {short(ind.prev_reading(), 100)} != reading(-2) {short(pv, 100)}")
+                    # reading_period is an index-taking accessor too: the same candle addressed by its positive and by its negative index
+                    for p_ in (1, 2, 4):
+                        for i in {0, L // 2, L - 1}:
+                            stats["reading_period_index_pairs"] = stats.get("reading_period_index_pairs", 0) + 1
+                            a_, b_ = ind.reading_period(p_, name, i), ind.reading_period(p_, name, i - L)
+                            if a_ != b_:
+                                V("agreement-sweep", f"C20|reading_period-index-sign|{cls}", f"reading_period({p_}, {name!r}, {i}) = {a_} but reading_period({p_}, {name!r}, {i - L}) = {b_} ({L} candles: the same candle)")
+                                break
                     if f is not None:
                         # dotted names: present exactly when that FIELD's latest value is not None (the dict around it may well exist)
                         stats["has_reading_checks"] = stats.get("has_reading_checks", 0) + 1
